@@ -33,6 +33,8 @@ Atoms # atomic
 """
     (d / 'lmp.data').write_text(data)
     (d / 'lmp2.data').write_text(data.replace('0.0 5.0 xlo xhi', '0.0 5.5 xlo xhi'))  # same atoms, other box
+    charge = data.replace('Atoms # atomic', 'Atoms # charge').replace('1 1 0.5 0.5 0.5', '1 1 1.0 0.5 0.5 0.5').replace('2 1 2.5 3.0 3.5', '2 1 1.0 2.5 3.0 3.5').replace('3 2 4.0 1.0 6.0', '3 2 -2.0 4.0 1.0 6.0')
+    (d / 'lmp3.data').write_text(charge)  # the same system written with atom_style charge
     frames = []
     for t in range(T_FRAMES):
         frames.append('3\nframe %d\nLi %.6f 0.5 0.5\nLi 2.5 %.6f 3.5\nS 4.0 1.0 %.6f\n' % (t, 0.5 + 2.4 * t, 3.0 - 1.7 * t, 6.0 + 0.6 * t))  # atoms leave the box
@@ -166,7 +168,7 @@ def write_gromacs(d: Path):
 
 
 LOADERS = {
-    'lammps': (write_lammps, ['lmp.data', 'lmp2.data', 'lmp.xyz']),
+    'lammps': (write_lammps, ['lmp.data', 'lmp2.data', 'lmp3.data', 'lmp.xyz']),
     'vasprun': (write_vasprun, ['vasprun.xml', 'vasprun.run1.xml']),
     'gromacs': (write_gromacs, ['g.gro', 'g.xtc']),
 }
@@ -196,6 +198,9 @@ VARIANTS = {
     'lammps': [
         {}, {'temperature': 500}, {'time_step': 2.0}, {'type_mapping': {'LI': 'Na', 'S': 'Se'}}, {'type_mapping': {'LI': 'K', 'S': 'Se'}}, {'type_mapping': {'LI': 'Na', 'S': 'Se', 'X': 'O'}},
         {'constant_lattice': False}, {'atom_style': 'charge'}, {'coords_format': 'XYZ'}, {'_data': 'lmp2.data'}, {'cache': 'EXPLICIT-STR'},
+        # a non-default atom style (with its matching data file) combined with different type mappings
+        {'atom_style': 'charge', '_data': 'lmp3.data'}, {'atom_style': 'charge', '_data': 'lmp3.data', 'type_mapping': {'LI': 'Na', 'S': 'Se'}},
+        {'atom_style': 'charge', '_data': 'lmp3.data', 'type_mapping': {'LI': 'K', 'S': 'Se'}},
     ],
     'vasprun': [{}, {'constant_lattice': False}, {'exception_on_bad_xml': False}, {'parse_dos': False}, {'_file': 'vasprun.run1.xml'}, {'ionic_step_skip': 2}],
     'gromacs': [{}, {'temperature': 500}, {'constant_lattice': False}],
